@@ -1111,6 +1111,16 @@ class Interp:
         return SV(z3.Or(ta, tb), 'bool')
 
     def ev_Call(self, n, env):
+        if isinstance(n.func, ast.Name) and n.func.id == 'super' and not n.args and not n.keywords and \
+                self.lookup_is_builtin('super', env):
+            # zero-argument super(): the class the enclosing method is defined in and its first parameter
+            e = env
+            while e is not None and e.func is None:
+                e = e.parent
+            if e is not None and e.cls is not None and e.func.node.args.args:
+                from .values import SuperV
+                return SuperV(e.cls, self.lookup(e.func.node.args.args[0].arg, e))
+            raise Unsupported('super() outside a method')
         f = self.eval(n.func, env)
         args = []
         for a in n.args:
